@@ -515,3 +515,19 @@ func init() {
 		},
 	})
 }
+
+func init() {
+	register(&Property{
+		ID:    "C22",
+		Units: []string{"fasthttp.CompressHandlerLevel", "fasthttp.CompressHandlerBrotliLevel", "fasthttp.(*RequestHeader).HasAcceptEncodingBytes", "fasthttp.(*Response).gzipBody", "fasthttp.(*Response).deflateBody", "fasthttp.(*Response).brotliBody", "fasthttp.(*Response).zstdBody", "fasthttp.newCompressedBodyStream", "fasthttp.(*ResponseHeader).isCompressibleContentType", "fasthttp.(*ResponseHeader).addVaryBytes", "fasthttp.WriteGzipLevel", "fasthttp.WriteDeflateLevel", "fasthttp.WriteBrotliLevel", "fasthttp.WriteZstdLevel", "fasthttp.stacklessWriteGzip", "fasthttp.stacklessWriteDeflate", "fasthttp.stacklessWriteBrotli", "fasthttp.stacklessWriteZstd", "stackless.NewFunc"},
+		Runs: []Run{
+			{Pkg: "fasthttp", Func: "vhC22CompressHandler", Modelled: true, NoNative: true, PathCap: 1500000},
+			{Pkg: "fasthttp", Func: "vhC22Saturation", Quick: map[string]int{"inputLen": 3}, Thorough: map[string]int{"inputLen": 6}, Modelled: true},
+		},
+		Assume: []string{
+			"codecs are abstracted: the DEFLATE / brotli / zstd implementations are loops and tables over whole buffers that no bit-blasting back end decides, so under the engine every codec entry point used here (Append*BytesLevel, compress*BodyStream, nonblockingWrite*) is replaced by a tagging function (//verif:stub): compressing x yields TAG<x>. Claimed is therefore only that the bytes handed to a codec and returned from it are routed correctly; 'round-trips for every input' of the codecs themselves is outside",
+			"handler half: CompressHandlerLevel / CompressHandlerBrotliLevel around a handler whose body is 10 or 200 bytes with two arbitrary tail bytes, text/plain or image/png, already carrying Content-Encoding or not, buffered or streamed (10 shapes), for an Accept-Encoding list of one or two elements from a table of 10 (codings, identity, x-gzip, q-values, *), one byte of the first element replaced by an arbitrary token byte: the declared Content-Encoding is one the list names, the body is TAG<original> exactly once, Vary: Accept-Encoding is present, and small / incompressible / already encoded bodies are unchanged",
+			"load half (vhC22Saturation): the work queue of stackless.NewFunc is represented by its documented contract — the wrapper runs the function or returns false when saturated; for each Write*Level function either the output decodes to the input (natively: through the real decoders) or an error is returned; the real queue dynamics with thousands of goroutines are outside",
+		},
+	})
+}
